@@ -37,7 +37,7 @@ def build(ctx, name, tags="verif", race=False, extra_overlay=None, also=()):
         cmd.append("-race")
     cmd.append("./internal/verifh/" + name)
     t0 = time.time()
-    r = sh(cmd, cwd=ctx.repo, timeout=900)
+    r = sh(cmd, cwd=ctx.repo, timeout=3000)
     if r.returncode != 0:
         raise Inconclusive("harness build failed for %s:\n%s\n%s" % (name, r.stdout[-3000:], r.stderr[-6000:]))
     ctx.log("built driver %s in %.1fs" % (name, time.time() - t0))
